@@ -110,6 +110,19 @@ def classify_store(ctx, f, nd, tgt, val, K, mask_in_scope):
         return 'bad', 'augmented store into an accessor entry'
     if val[0] == 'c':
         return 'bad', 'constant %r stored into an accessor (only -1 marks a missing arc)' % (val[1],)
+    # masked store ACC[u, mask] = <successor list as given>: numpy pairs the selected columns in ASCENDING order with the values in
+    # LIST order; the two agree only for a list that happens to be sorted by column
+    if tgt[0] == 'sub' and tgt[1][0] == 'sub':
+        j_ = tgt[2]
+        is_mask = (is_call(j_, 'numpy.array', 'numpy.asarray') and j_[2] and j_[2][0][0] == 'comp' and
+                   (j_[2][0][2][0] == 'cmp' or dict(j_[3]).get('dtype') in (('g', 'builtins.bool'), ('c', 'bool')))) or j_[0] == 'cmp' or \
+            is_call(j_, 'numpy.isin', 'numpy.in1d')
+        raw_row = (val[0] == 'item' and val[1][0] == 'iter' and val[2] == 1) or \
+            (val[0] == 'sub' and val[1][0] == 'v' and val[1][2] == 'P')
+        if is_mask and raw_row:
+            return 'bad', ('(ii) the successors %s are assigned through a column mask: the columns are taken in ascending order, the values '
+                           'in the order of the given list, so a successor list that is not sorted by last nucleotide lands in the wrong '
+                           'columns' % show(val)[:40])
     # whole-row store
     if tgt[0] == 'sub' and ctx.kinds.kind(tgt, f) == 'ROW':
         u = tgt[2]
@@ -578,6 +591,21 @@ def r_ord_empty(ctx, fq):
                                    'not on how many entries are marked: an all-zero mask is not rejected' % f.name,
                                    inputs='the all-zero mask')
                         return
+    if fq.endswith('.connect_valid_graph'):
+        # the valid graph of a non-empty mask is returned whatever its arcs are: a return that depends on the finished accessor
+        # turns "no arc between the collected k-mers" into "nothing collected"
+        K_ = ctx.kinds
+        for nd in f.stmts(ast.Return):
+            for atom, pol in ctx.conds(f, nd):
+                dep = [x for x in walk_term(atom) if (call_name(x) or '').endswith('.obtain_vertices') or
+                       (x[0] == 'v' and x[2] != 'P' and K_.kind(x, f) in ('ACC', 'ROW', 'ENTRY'))]
+                if dep:
+                    run.refute('R-ORD', f, 'raise-iff-none-accepted', nd.lineno,
+                               'connect_valid_graph returns the accessor only when %s holds, a test on the ARCS of the finished graph '
+                               '(%s): a mask that marks k-mers none of which follows another is not empty, yet it now ends in '
+                               '"No collected vertex"' % (show(atom)[:60], show(dep[0])[:40]),
+                               inputs='non-empty masks without any arc, e.g. a single k-mer that is not a self-loop')
+                    return
     run.floor('R-ORD', 'emptiness raise in %s' % fq, n, 1)
 
 
@@ -1431,6 +1459,12 @@ def r_verts(ctx):
                 if K.kind(s_, f) in ('ROW', 'COL', 'ENTRY', 'ACC') or \
                         (s_[0] == 'sub' and K.kind(s_[1], f) == 'ACC' and s_[2][0] == 'cmp'):
                     entries.append(show(s_)[:50])
+        if not entries and not positions and not comp_pos:
+            # the selected ENTRIES themselves: ACC[ACC >= 0], ACC[mask].ravel(), a set / sorted list of successors
+            if (core[0] == 'sub' and K.kind(core[1], f) == 'ACC' and core[2][0] == 'cmp') or K.kind(core, f) in ('ENTRY', 'ROW'):
+                entries.append(show(core)[:50])
+            elif core[0] == 'comp' and any(K.kind(x, f) == 'ENTRY' for x in walk_term(core[2])):
+                entries.append(show(core[2])[:50])
         if entries:
             run.refute('R-VERTS', f, 'return#%d:row-positions-only' % n, nd.lineno,
                        'obtain_vertices merges accessor entries (%s) into its result: a vertex that is only the target of an arc '
